@@ -30,6 +30,16 @@ PROGRAMS = {
     'ok_only': 'a:\nb:\naddi x1, x0, 5\nc:\nli x6, K',
     'nolabels': 'addi x1, x0, 5\nli x6, K\ndw 7',
     'needs_i': 'a:\ninclude part.asm\nj a',
+    'range_long': 'start:\naddi x1, x0, K\nj start\nend:\ndw 7\ndw 8',
+    'labels_only': 'a:\nb:',
+}
+# histories: the same command line run twice over changing sources (re-assembling to the same paths);
+# everything is judged after the last run
+HISTORIES = {
+    'shrink': ('range_long', 'range'),
+    'grow': ('range', 'range_long'),
+    'same': ('range', 'range'),
+    'to_empty': ('range_long', 'labels_only'),
 }
 INC = {'/proj/src/inc/part.asm': 'part:\naddi x3, x0, K\ndw part',
        '/proj/run/zinc/part.asm': 'zpart:\naddi x3, x0, K',
@@ -73,6 +83,7 @@ class FakeIntelHex(types.ModuleType):
 
 def cli_task(prog, argv_name):
     tag = 'cli:%s:%s' % (prog, argv_name)
+    progs = HISTORIES[prog[5:]] if prog.startswith('hist:') else (prog,)
     res = TaskResult(tag)
     asm = asmshim.load_asm_shimmed()
     real = asmshim.load_asm_pristine()
@@ -94,7 +105,7 @@ def cli_task(prog, argv_name):
             v.add_dir(d)
         for pth, data in OLD.items():
             (v.add_bytes if isinstance(data, bytes) else v.add_text)(pth, data)
-        v.add_text('/proj/src/main.asm', PROGRAMS[prog].replace('K', '@K@'))
+        v.add_text('/proj/src/main.asm', PROGRAMS[progs[0]].replace('K', '@K@'))
         for pth, text in INC.items():
             v.add_text(pth, text.replace('K', '@K@'))
         v.install(asm)
@@ -114,7 +125,16 @@ def cli_task(prog, argv_name):
         asm.logging = _FakeLogging
         try:
             with prof:
-                return asm.cli_main()
+                for k, pr in enumerate(progs):
+                    if k:
+                        # the next run of the history: new source, traces of the earlier run forgotten
+                        v.add_text('/proj/src/main.asm', PROGRAMS[pr].replace('K', '@K@'))
+                        v.writes.clear()
+                        v.opened.clear()
+                        log.clear()
+                        captured.clear()
+                    r = asm.cli_main()
+                return r
         finally:
             sys.argv = old_argv
 
@@ -130,7 +150,7 @@ def cli_task(prog, argv_name):
         failed = kind == 'exc'        # any exception, SystemExit(message / non-zero) included
         # ---- replay in a real directory tree with a real subprocess-free call ----
         real_argv = [hex(hv) if a == '@H@' else a for a in p.notes['argv']]
-        got = _real_cli(real, prog, real_argv, kv)
+        got = _real_cli(real, progs, real_argv, kv)
         sym_writes = sorted({pth for ev, pth in v.writes if ev == 'open-w'})
         symc = ('fail' if failed else 'ok', sym_writes, [(e[0], e[1].split('/')[-1], e[2].split('/')[-1], core.concrete(e[3], model)) for e in log])
         realc = (got['status'], sorted(got['changed']), got['hexlog'])
@@ -151,7 +171,7 @@ def cli_task(prog, argv_name):
                 if kn:
                     res['known'].append(dict(id=kn.get('id'), what=kn.get('what')))
                 else:
-                    path = common.write_replay('C17', tag + '_fail', dict(kind='cli', property='C17', setting=setting, source=PROGRAMS[prog], what=what))
+                    path = common.write_replay('C17', tag + '_fail', dict(kind='cli', property='C17', setting=setting, source=[PROGRAMS[q] for q in progs], what=what))
                     res['violations'].append(dict(site, setting=setting, what=what, replay=path))
             res.oblig(ok)
             continue
@@ -189,10 +209,10 @@ def cli_task(prog, argv_name):
                 probs.append('bin2hex not called with (output, output.hex, offset) after the binary was written: %r' % (log,))
         elif log:
             probs.append('bin2hex called without --hex-offset')
-        if set(sym_writes) != expected_writes:
+        if not set(sym_writes) <= expected_writes:      # contents are checked above; a stray file is an error
             probs.append('files written %r, expected %r' % (sym_writes, sorted(expected_writes)))
         if probs:
-            path = common.write_replay('C17', tag + '_ok', dict(kind='cli', property='C17', setting=setting, source=PROGRAMS[prog], what='; '.join(probs)))
+            path = common.write_replay('C17', tag + '_ok', dict(kind='cli', property='C17', setting=setting, source=[PROGRAMS[q] for q in progs], what='; '.join(probs)))
             res['violations'].append(dict(harness='cli', kind='wrong-output', setting=setting, what='; '.join(probs), replay=path))
         res.oblig(not probs)
     if n_ok + n_fail == 0:
@@ -241,7 +261,7 @@ def _labels_ok(lines, labels):
     return True
 
 
-def _real_cli(real, prog, argv, kv):
+def _real_cli(real, progs, argv, kv):
     """runs the pristine cli_main() in a real scratch tree (cwd = proj/run)"""
     import os
     import shutil
@@ -255,12 +275,13 @@ def _real_cli(real, prog, argv, kv):
         for pth, data in OLD.items():
             with open(root + pth, 'wb' if isinstance(data, bytes) else 'w') as f:
                 f.write(data)
+        if isinstance(progs, str):
+            progs = (progs,)
         with open(root + '/proj/src/main.asm', 'w') as f:
-            f.write(PROGRAMS[prog].replace('K', str(kv)))
+            f.write(PROGRAMS[progs[0]].replace('K', str(kv)))
         for pth, text in INC.items():
             with open(root + pth, 'w') as f:
                 f.write(text.replace('K', str(kv)))
-        before = _snapshot(root + '/proj/run')
         os.chdir(root + '/proj/run')
         sys.argv = list(argv)
         sys.modules['intelhex'] = FakeIntelHex(log)
@@ -269,7 +290,13 @@ def _real_cli(real, prog, argv, kv):
         import contextlib
         try:
             with contextlib.redirect_stdout(io.StringIO()), contextlib.redirect_stderr(io.StringIO()):
-                real.cli_main()
+                for k, pr in enumerate(progs):
+                    if k:
+                        with open(root + '/proj/src/main.asm', 'w') as f:
+                            f.write(PROGRAMS[pr].replace('K', str(kv)))
+                        log.clear()
+                    before = _snapshot(root + '/proj/run')
+                    real.cli_main()
         except SystemExit as e:
             if e.code not in (None, 0):
                 status, err = 'fail', str(e.code)
@@ -296,5 +323,5 @@ def _snapshot(d):
         full = os.path.join(d, n)
         if os.path.isfile(full):
             with open(full, 'rb') as f:
-                out[n] = f.read()
+                out[n] = (f.read(), os.stat(full).st_mtime_ns)
     return out
